@@ -249,3 +249,33 @@ theorem quad_sum_eq [CommRing α] (n : Nat) (A : Nat → Nat → α) (x y : Nat 
   rw [Finset.sum_comm]
 
 end Clarabel.Csc
+
+/-! ### the `b*y` prologue of `symv` (since /repo 1706c1f: `y` is not read when `b == 0`) -/
+
+namespace Clarabel.Csc
+
+variable {α : Type}
+
+theorem symvB_size [Mul α] [BEq α] [OfNat α 0] (b : α) (y : Array α) : (symvB b y).size = y.size := by
+  unfold symvB
+  split <;> simp [Vec.scale]
+
+theorem symvB_get [CommRing α] [DecidableEq α] (b : α) (y : Array α) (i : Nat) (hi : i < y.size) :
+    (symvB b y)[i]? = some (b * y.getD i 0) := by
+  unfold symvB
+  by_cases hb : b = 0
+  · simp [hb, hi]
+  · have : (b == 0) = false := by simpa using hb
+    simp [this, Vec.scale, Array.getD_eq_getD_getElem?, Array.getElem?_eq_getElem hi, mul_comm]
+
+/-- for `b == 0` the prologue depends on `y` only through its length (every scalar type) -/
+theorem symvB_zero_congr [Mul α] [BEq α] [OfNat α 0] (b : α) (y y' : Array α) (hb : (b == 0) = true)
+    (hlen : y.size = y'.size) : symvB b y = symvB b y' := by
+  unfold symvB
+  simp only [hb, ↓reduceIte]
+  apply Array.ext
+  · simpa using hlen
+  · intro i h1 h2
+    simp
+
+end Clarabel.Csc
